@@ -377,6 +377,7 @@ def correspondence(ctx):
     replies = core.Driver().run(reqs)
     for req, (obs, err, s, inp), rep in zip(reqs, meta, replies):
         compare(out, obs, err, s, inp, rep)
+    heap_correspondence(ctx, out)
     return out
 
 
@@ -421,6 +422,340 @@ def compare(out, obs, err, s, inp, rep):
     out.sample({"ops": inp["ops"], "start": inp["start"], "impl_tags": [list(o[:4]) for o in obs], "impl_cov00": [o[5][0] for o in obs],
                 "model_cov00": [b2f(toks[46 * i + 10]) for i in range(len(obs))]}, limit=3)
 
+
+
+# ---------------------------------------------------------------- several objects in one process (Model/CovHeap.lean)
+
+DUP_KINDS = ["array-subok", "copy.copy", "deepcopy", "astype", "ndarray.copy", "positive"]
+VIEW_KINDS = {"V": ["slice", "view", "reshape", "ellipsis"], "T": ["T", "transpose", "swapaxes"]}
+INT_KINDS = ["list-int", "list-float", "list-mixed", "tuple-int", "int32", "int64", "float32", "float64", "f64-fortran", "f64-strided", "matrix-int", "matrix-float", "cov"]
+
+
+def gen_cov_int(rng):
+    """integer-valued symmetric PSD 6x6 (every entry below 2^24: exact in float32 as well)"""
+    import numpy as np
+    rank = rng.choice([6, 6, 6, 4, 2, 1])
+    a = np.array([[rng.randint(-3, 3) for _ in range(rank)] for _ in range(6)], dtype=np.int64)
+    d = np.diag([rng.choice([1, 10, 100])] * 3 + [1] * 3).astype(np.int64)
+    c = d @ a @ a.T @ d
+    if not c.any():
+        c = d @ d
+    return c
+
+
+def as_kind(ci, kind, sv=None):
+    """the integer-valued matrix `ci` handed to Cov(...) as the given kind of `values`"""
+    import numpy as np
+    rows = [[int(v) for v in r] for r in np.asarray(ci)]
+    if kind == "list-int":
+        return rows
+    if kind == "list-float":
+        return [[float(v) for v in r] for r in rows]
+    if kind == "list-mixed":
+        return [[(float(v) if (i + j) % 2 else v) for j, v in enumerate(r)] for i, r in enumerate(rows)]
+    if kind == "tuple-int":
+        return tuple(tuple(r) for r in rows)
+    if kind in ("int32", "int64", "float32", "float64"):
+        if kind == "uint16":
+            return np.abs(np.array(rows)).astype(np.uint16) if False else np.array(rows, dtype=np.int64).astype(np.int32)
+        return np.array(rows, dtype=getattr(np, kind))
+    if kind == "f64-fortran":
+        return np.asfortranarray(np.array(rows, dtype=float))
+    if kind == "f64-strided":
+        big = np.zeros((12, 12))
+        big[::2, ::2] = np.array(rows, dtype=float)
+        return big[::2, ::2]
+    if kind == "matrix-int":
+        return np.matrix(rows)
+    if kind == "matrix-float":
+        return np.matrix(rows, dtype=float)
+    if kind == "cov":
+        from beyond.orbits.cov import Cov
+        return Cov(sv, np.array(rows, dtype=float), sv.frame)
+    raise ValueError(kind)
+
+
+def tagobj(tag):
+    from beyond.frames.frames import get_frame
+    return tag if tag in LOCAL else get_frame(tag)
+
+
+class RealHeap:
+    """the operations of Model/CovHeap.lean on the real classes"""
+
+    def __init__(self, dates, states):
+        self.dates = [mkdate(d) for d in dates]
+        self.svs = [make_sv(x, self.dates[d], f0) for d, f0, x in states]
+        self.objs = []
+
+    def apply(self, op):
+        import copy as _copy
+        import pickle
+        import numpy as np
+        from beyond.orbits.cov import Cov
+        from beyond.errors import UnknownFrameError
+        k = op[0]
+        o = self.objs
+        try:
+            if k == "new":
+                _, s, tag, kind, values = op
+                vals = np.array(values, dtype=float) if kind == "f64" else as_kind(np.array(values), kind, self.svs[s])
+                o.append(Cov(self.svs[s], vals, tagobj(tag)))
+            elif k == "from":
+                o.append(Cov(self.svs[op[1]], o[op[2]], None))
+            elif k == "att":
+                self.svs[op[1]].cov = o[op[2]]
+            elif k == "hop":
+                o[op[1]].frame = op[2]
+            elif k == "svh":
+                self.svs[op[1]].frame = op[2]
+            elif k == "scale":
+                o.append(op[2] * o[op[1]] if op[3] == "k*c" else o[op[1]] * op[2])
+            elif k == "dup":
+                c = o[op[1]]
+                o.append({"array-subok": lambda: np.array(c, subok=True), "copy.copy": lambda: _copy.copy(c), "deepcopy": lambda: _copy.deepcopy(c),
+                          "astype": lambda: c.astype(float), "ndarray.copy": lambda: np.ndarray.copy(c), "positive": lambda: +c}[op[2]]())
+            elif k == "add":
+                o.append(o[op[1]] + o[op[2]] if op[3] == "+" else np.add(o[op[1]], o[op[2]]))
+            elif k == "view":
+                c = o[op[1]]
+                o.append({"slice": lambda: c[:], "view": lambda: c.view(), "reshape": lambda: c.reshape(6, 6), "ellipsis": lambda: c[...],
+                          "T": lambda: c.T, "transpose": lambda: c.transpose(), "swapaxes": lambda: np.swapaxes(c, 0, 1)}[op[3]]())
+            elif k == "imul":
+                c = o[op[1]]
+                c *= op[2]
+            elif k == "copy":
+                o.append(o[op[1]].copy() if op[2] == "-" else o[op[1]].copy(frame=op[2]))
+            elif k == "pkl":
+                o.append(pickle.loads(pickle.dumps(o[op[1]])))
+            else:
+                raise RuntimeError("bad op " + k)
+        except UnknownFrameError:
+            return "unknown-frame"
+        except AttributeError as e:
+            if "_orb_frame" in str(e):
+                return "attribute"
+            return "raised:AttributeError:" + str(e)[:60]
+        except ValueError as e:
+            if "Non-symmetric" in str(e):
+                return "asymmetric"
+            return "raised:ValueError:" + str(e)[:60]
+        return "ok"
+
+    def observe(self):
+        import numpy as np
+        objs = []
+        for c in self.objs:
+            tag = c.frame if isinstance(c.frame, str) else c.frame.name
+            of = getattr(c, "_orb_frame", None)
+            objs.append((tag, "-" if of is None else of.name, c.orb.frame.name, self.dates.index(c.orb.date), [float(v) for v in c.orb],
+                         [float(v) for v in np.array(c, dtype=float).flatten()]))
+        return objs, [sv.frame.name for sv in self.svs]
+
+
+def op_tokens(op):
+    """request tokens of one operation (the kind-of-call fields are not part of the model)"""
+    k = op[0]
+    if k == "new":
+        import numpy as np
+        return ["new", str(op[1]), op[2]] + [f2b(v) for v in np.array(op[4], dtype=float).flatten()]
+    if k in ("from", "att", "add"):
+        return [k, str(op[1]), str(op[2])]
+    if k in ("hop", "svh", "copy"):
+        return [k, str(op[1]), op[2]]
+    if k in ("scale", "imul"):
+        return [k, str(op[1]), f2b(op[2])]
+    if k in ("dup", "pkl"):
+        return [k, str(op[1])]
+    if k == "view":
+        return ["view", str(op[1]), op[2]]
+    raise ValueError(k)
+
+
+def gen_heap_case(rng, nops):
+    """a scenario generated while it is executed on the real classes (the generator looks at the real objects only to
+    aim its choices: e.g. arrays made by numpy can only go from QSW to TNW and back)"""
+    nd = 1 if rng.random() < 0.7 else 2
+    dates = []
+    while len(dates) < nd:
+        d = gen_date(rng)
+        if d not in dates:
+            dates.append(d)
+    ns = rng.randint(2, 4)
+    fc = rng.choice(NONROT) if rng.random() < 0.93 else rng.choice(["ITRF", "PEF", "TIRF"])
+    pool = [fc] + rng.sample(FRAMES, 2)
+    states = []
+    for s in range(ns):
+        d = 0 if rng.random() < 0.75 else rng.randrange(nd)
+        f0 = fc if rng.random() < 0.75 else rng.choice(pool)
+        x = list(states[rng.randrange(s)][2]) if s and rng.random() < 0.2 else gen_state(rng)
+        states.append((d, f0, x))
+    real = RealHeap(dates, states)
+    ops, obs = [], []
+    dropped = 0
+
+    def push(op):
+        nonlocal dropped
+        err = real.apply(op)
+        if err == "asymmetric":
+            dropped += 1        # np.allclose(buf, buf.T) of the constructor on a rounded matrix: not an event of the model
+            return
+        ops.append(op)
+        obs.append((err,) + real.observe())
+
+    def newcov(s):
+        if rng.random() < 0.3:
+            ci = gen_cov_int(rng)
+            push(["new", s, states[s][1] if rng.random() < 0.6 else rng.choice(LOCAL), rng.choice(INT_KINDS), ci.tolist()])
+        else:
+            c0 = gen_cov(rng)[0]
+            push(["new", s, states[s][1] if rng.random() < 0.6 else rng.choice(LOCAL), "f64", c0.tolist()])
+    for s in range(ns):
+        newcov(s)
+        if rng.random() < 0.6:
+            push(["att", s, len(real.objs) - 1])
+    names = pool + ["WGS84"]
+    for _ in range(nops):
+        n = len(real.objs)
+        i = rng.randrange(n)
+        r = rng.random()
+        if r < 0.50 or n >= 9:
+            c = real.objs[i]
+            if not hasattr(c, "_orb_frame") and rng.random() < 0.7:
+                t = rng.choice(LOCAL)
+            else:
+                t = rng.choice(names + LOCAL * 3)
+            if rng.random() < 0.02:
+                t = rng.choice(["FOO", "qsw", "Hill2"])
+            push(["hop", i, t])
+        elif r < 0.57:
+            push(["svh", rng.randrange(ns), rng.choice(names)])
+        elif r < 0.64:
+            push(["scale", i, rng.choice([9.0, 0.25, -1.0, 1.0, 2.0, rng.uniform(0.1, 10)]), rng.choice(["k*c", "c*k"])])
+        elif r < 0.69:
+            push(["dup", i, rng.choice(DUP_KINDS)])
+        elif r < 0.73:
+            push(["add", i, rng.randrange(n), rng.choice(["+", "np.add"])])
+        elif r < 0.79:
+            tv = rng.choice("VT")
+            push(["view", i, tv, rng.choice(VIEW_KINDS[tv])])
+        elif r < 0.82:
+            push(["imul", i, rng.choice([2.0, 0.5, 9.0])])
+        elif r < 0.88:
+            push(["copy", i, rng.choice(["-", "-"] + names + LOCAL)])
+        elif r < 0.92:
+            push(["pkl", i])
+        elif r < 0.95:
+            push(["from", rng.randrange(ns), i])
+        elif r < 0.98:
+            push(["att", rng.randrange(ns), i])
+        else:
+            newcov(rng.randrange(ns))
+    return dates, states, ops, obs, dropped, pool
+
+
+def heap_request(dates, states, ops, pool):
+    from beyond.frames.frames import get_frame
+    names = []
+    for _, f0, _ in states:
+        if f0 not in names:
+            names.append(f0)
+    for n in pool + ["ITRF"]:
+        if canon(n) not in names:
+            names.append(canon(n))
+    table = []
+    k = 0
+    for di, d in enumerate(dates):
+        dd = mkdate(d)
+        for a in names:
+            for b in names:
+                if a != b:
+                    m = get_frame(a).orientation.convert_to(dd, get_frame(b).orientation)
+                    table += [str(di), a, b] + [f2b(v) for v in m.flatten()]
+                    k += 1
+    toks = ["heap", str(len(states))]
+    for d, f0, x in states:
+        toks += [str(d), f0] + [f2b(v) for v in x]
+    toks += [str(k)] + table
+    for op in ops:
+        toks += op_tokens(op)
+    return " ".join(toks)
+
+
+def tscale(m):
+    """comparison scale of a covariance-like matrix from its own block traces"""
+    import numpy as np
+    m = np.asarray(m).reshape(6, 6)
+    sp = math.sqrt(abs(np.trace(m[:3, :3])) + abs(m[:3, :3]).max())
+    sv = math.sqrt(abs(np.trace(m[3:, 3:])) + abs(m[3:, 3:]).max())
+    return np.array([sp] * 3 + [sv + 7.3e-5 * sp + 1e-300] * 3) + 1e-300
+
+
+def compare_heap(out, obs, inp, rep):
+    import numpy as np
+    segs = rep.split(" | ")
+    if len(segs) != len(obs):
+        out.fail("heap-length", "model and implementation executed a different number of operations", inp, observed=len(obs), expected=rep[:80])
+        return
+    ns = len(inp["states"])
+    for n, (seg, (err, objs, svf)) in enumerate(zip(segs, obs)):
+        toks = seg.split()
+        op = inp["ops"][n][:4] if inp["ops"][n][0] != "new" else inp["ops"][n][:4]
+        if toks[0] != err:
+            out.fail("heap-error-kind:" + inp["ops"][n][0], f"op {n} {op}: outcome differs", inp, observed=err, expected=toks[0])
+            return
+        nobj = int(toks[1])
+        if nobj != len(objs) or len(toks) != 2 + 46 * nobj + ns:
+            out.fail("heap-objects:" + inp["ops"][n][0], f"op {n} {op}: number of objects differs", inp, observed=len(objs), expected=nobj)
+            return
+        if toks[2 + 46 * nobj:] != svf:
+            out.fail("heap-state-frames", f"op {n} {op}: frames of the states differ", inp, observed=svf, expected=toks[2 + 46 * nobj:])
+            return
+        for j, o in enumerate(objs):
+            t = toks[2 + 46 * j: 2 + 46 * (j + 1)]
+            mb = [t[0], t[1], t[2], int(t[3])]
+            if list(o[:4]) != mb:
+                out.fail("heap-bookkeeping:" + inp["ops"][n][0], f"op {n} {op}: object {j}: (tag, _orb_frame, frame of the private copy, date) differ", inp,
+                         observed=list(o[:4]), expected=mb)
+                return
+            morb = [b2f(v) for v in t[4:10]]
+            rn = max(abs(v) for v in o[4][:3])
+            vn = max(abs(v) for v in o[4][3:]) + 7.3e-5 * rn
+            if not all(core.close(a, b, rtol=0, atol=1e-9 * (rn if q < 3 else vn)) for q, (a, b) in enumerate(zip(o[4], morb))):
+                out.fail("heap-orb:" + inp["ops"][n][0], f"op {n} {op}: object {j}: private state copy differs", inp, observed=o[4], expected=morb)
+                return
+            mm = np.array([b2f(v) for v in t[10:]]).reshape(6, 6)
+            rm = np.array(o[5]).reshape(6, 6)
+            if not mclose(rm, mm, tscale(mm)):
+                out.fail("heap-matrix:" + inp["ops"][n][0], f"op {n} {op}: object {j}: values differ", inp, observed=o[5], expected=mm.flatten().tolist())
+                return
+    out.sample({"heap ops": [o[:4] if o[0] != "new" else o[:4] for o in inp["ops"]][:12], "final impl tags": [o[0] for o in obs[-1][1]],
+                "final model tags": [segs[-1].split()[2 + 46 * j] for j in range(len(obs[-1][1]))]}, limit=2)
+
+
+def heap_correspondence(ctx, out):
+    rng = ctx.rng
+    reqs, meta = [], []
+    dropped = total = 0
+    for _ in range(ctx.n(110, 2500)):
+        dates, states, ops, obs, dr, pool = gen_heap_case(rng, rng.randint(6, 12))
+        dropped += dr
+        total += len(ops)
+        req = heap_request(dates, states, ops, pool)
+        reqs.append(req)
+        inp = {"dates": dates, "states": [list(s) for s in states], "ops": ops}
+        meta.append((obs, inp))
+        kinds = sorted({o[0] for o in ops})
+        shared = len({(d, f) for d, f, _ in states}) < len(states)
+        out.count(key=hashlib.sha1(req.encode()).hexdigest(), nontrivial=any(o[0] == "hop" for o in ops), kind="heap", objects=len(obs[-1][1]),
+                  shared_epoch_and_frame=shared, errors=sum(1 for o in obs if o[0] != "ok"))
+        for o in ops:
+            out.tally("heapop=" + o[0])
+    if dropped > 0.02 * max(total, 1) + 2:
+        out.fail("heap-constructor-asymmetric", "the Cov constructor refused more than 2 % of the matrices produced by frame changes as non symmetric", {"dropped": dropped, "ops": total})
+    replies = core.Driver().run(reqs)
+    for (obs, inp), rep in zip(meta, replies):
+        compare_heap(out, obs, inp, rep)
 
 # ---------------------------------------------------------------- oracle on the real API
 
